@@ -9,7 +9,8 @@
 (* Trees:  [k |-> "leaf", n] | [k |-> "bin", op, l, r] | [k |-> "un", op,  *)
 (* e] | [k |-> "tern", c, a, b] | [k |-> "nilco", l, r] | [k |-> "idx", e, *)
 (* i] | [k |-> "member", e, n] | [k |-> "call", e, a] | [k |-> "slice", e, *)
-(* lo, hi].                                                                *)
+(* lo, hi] | [k |-> "slice3", e, lo, hi, c] (e[lo:hi:c]) | [k |->          *)
+(* "slicelo", e, lo] (e[lo:]) | [k |-> "slicehi", e, hi] (e[:hi]).         *)
 (* UnparseMin writes a tree with parentheses only where the table needs    *)
 (* them, UnparseFull with every implied parenthesis explicit; ParseRef is  *)
 (* an independent declarative parser (precedence climbing by level).  TLC  *)
@@ -32,6 +33,9 @@ Idx(e, i) == [k |-> "idx", e |-> e, i |-> i]
 Member(e, n) == [k |-> "member", e |-> e, n |-> n]
 CallE(e, a) == [k |-> "call", e |-> e, a |-> a]
 Slice(e, lo, hi) == [k |-> "slice", e |-> e, lo |-> lo, hi |-> hi]
+Slice3(e, lo, hi, c) == [k |-> "slice3", e |-> e, lo |-> lo, hi |-> hi, c |-> c]
+SliceLo(e, lo) == [k |-> "slicelo", e |-> e, lo |-> lo]
+SliceHi(e, hi) == [k |-> "slicehi", e |-> e, hi |-> hi]
 
 Level(t) == CASE t.k = "bin" -> BinLevel[t.op]
               [] t.k \in {"tern", "nilco"} -> 1
@@ -54,6 +58,9 @@ Min(t) ==
     [] t.k = "member" -> MinIf(t.e, Level(t.e) < 9) \o <<".", t.n>>
     [] t.k = "call" -> MinIf(t.e, Level(t.e) < 9) \o <<"(">> \o Min(t.a) \o <<")">>
     [] t.k = "slice" -> MinIf(t.e, Level(t.e) < 9) \o <<"[">> \o Min(t.lo) \o <<":">> \o Min(t.hi) \o <<"]">>
+    [] t.k = "slice3" -> MinIf(t.e, Level(t.e) < 9) \o <<"[">> \o Min(t.lo) \o <<":">> \o Min(t.hi) \o <<":">> \o Min(t.c) \o <<"]">>
+    [] t.k = "slicelo" -> MinIf(t.e, Level(t.e) < 9) \o <<"[">> \o Min(t.lo) \o <<":", "]">>
+    [] t.k = "slicehi" -> MinIf(t.e, Level(t.e) < 9) \o <<"[", ":">> \o Min(t.hi) \o <<"]">>
 FullSub(t) == IF t.k = "leaf" THEN Full(t) ELSE P(Full(t))
 Full(t) ==
   CASE t.k = "leaf" -> <<t.n>>
@@ -65,6 +72,9 @@ Full(t) ==
     [] t.k = "member" -> FullSub(t.e) \o <<".", t.n>>
     [] t.k = "call" -> FullSub(t.e) \o <<"(">> \o FullSub(t.a) \o <<")">>
     [] t.k = "slice" -> FullSub(t.e) \o <<"[">> \o FullSub(t.lo) \o <<":">> \o FullSub(t.hi) \o <<"]">>
+    [] t.k = "slice3" -> FullSub(t.e) \o <<"[">> \o FullSub(t.lo) \o <<":">> \o FullSub(t.hi) \o <<":">> \o FullSub(t.c) \o <<"]">>
+    [] t.k = "slicelo" -> FullSub(t.e) \o <<"[">> \o FullSub(t.lo) \o <<":", "]">>
+    [] t.k = "slicehi" -> FullSub(t.e) \o <<"[", ":">> \o FullSub(t.hi) \o <<"]">>
 
 ----------------------------------------------------------------------------
 (* reference parser: recursive descent by level over token sequences; result [t, rest] (t.k = "fail" on error) *)
@@ -98,12 +108,22 @@ PPostLoop(acc, ts) ==
   CASE Hd(ts) = "." -> IF Len(ts) >= 2 /\ ts[2] \in Names THEN PPostLoop(Member(acc, ts[2]), SubSeq(ts, 3, Len(ts))) ELSE Res(Fail, <<>>)
     [] Hd(ts) = "(" -> (LET a == PExpr(Tail(ts)) IN
                         IF a.t.k = "fail" \/ Hd(a.rest) # ")" THEN Res(Fail, <<>>) ELSE PPostLoop(CallE(acc, a.t), Tail(a.rest)))
-    [] Hd(ts) = "[" -> (LET i == PExpr(Tail(ts)) IN
-                        IF i.t.k = "fail" THEN i
-                        ELSE IF Hd(i.rest) = "]" THEN PPostLoop(Idx(acc, i.t), Tail(i.rest))
-                        ELSE IF Hd(i.rest) = ":" THEN (LET h == PExpr(Tail(i.rest)) IN
-                             IF h.t.k = "fail" \/ Hd(h.rest) # "]" THEN Res(Fail, <<>>) ELSE PPostLoop(Slice(acc, i.t, h.t), Tail(h.rest)))
-                        ELSE Res(Fail, <<>>))
+    [] Hd(ts) = "[" ->
+         IF Hd(Tail(ts)) = ":" THEN            \* e[:hi]
+              (LET h == PExpr(Tail(Tail(ts))) IN
+               IF h.t.k = "fail" \/ Hd(h.rest) # "]" THEN Res(Fail, <<>>) ELSE PPostLoop(SliceHi(acc, h.t), Tail(h.rest)))
+         ELSE (LET i == PExpr(Tail(ts)) IN
+               IF i.t.k = "fail" THEN i
+               ELSE IF Hd(i.rest) = "]" THEN PPostLoop(Idx(acc, i.t), Tail(i.rest))
+               ELSE IF Hd(i.rest) = ":" THEN
+                    (IF Hd(Tail(i.rest)) = "]" THEN PPostLoop(SliceLo(acc, i.t), Tail(Tail(i.rest)))      \* e[lo:]
+                     ELSE LET h == PExpr(Tail(i.rest)) IN
+                          IF h.t.k = "fail" THEN h
+                          ELSE IF Hd(h.rest) = "]" THEN PPostLoop(Slice(acc, i.t, h.t), Tail(h.rest))
+                          ELSE IF Hd(h.rest) = ":" THEN (LET c == PExpr(Tail(h.rest)) IN
+                               IF c.t.k = "fail" \/ Hd(c.rest) # "]" THEN Res(Fail, <<>>) ELSE PPostLoop(Slice3(acc, i.t, h.t, c.t), Tail(c.rest)))
+                          ELSE Res(Fail, <<>>))
+               ELSE Res(Fail, <<>>))
     [] OTHER -> Res(acc, ts)
 PAtom(ts) ==
   IF Hd(ts) \in Names THEN Res(Leaf(Hd(ts)), Tail(ts))
